@@ -37,6 +37,7 @@ class C08(Check):
     pid = "C08"
     title = "SBML export then import reproduces the model, or export fails"
     rules = {
+        "E9": "(shared with C17) the re-import side of a round trip: every document gets its own generated module (U1 of C17)",
         "E1": "exhaustiveness / field consumption of the AST->MathML converters: every dispatcher default raises; comparison chains, call "
               "arguments and keywords are consumed in full or refused",
         "E2": "node typestate: an ASTNode created with a kind that needs a payload (function/name -> setName, real -> setValue) receives it "
@@ -53,7 +54,7 @@ class C08(Check):
               "the next component that uses the same function with other arguments",
         "E6": "API existence: every method called on a libsbml object exists on the class its factory returns",
     }
-    floors = {"E1": 8, "E2": 3, "E3": 10, "E4": 2, "E5": 20, "E6": 25, "E7": 2, "E8": 1}
+    floors = {"E9": 1, "E1": 8, "E2": 3, "E3": 10, "E4": 2, "E5": 20, "E6": 25, "E7": 2, "E8": 1}
     decided = [
         "an expression construct the exporter cannot represent raises instead of producing a different / unreadable formula",
         "coefficient signs survive; ids are produced by one converter; libsbml is called with methods that exist",
@@ -65,6 +66,7 @@ class C08(Check):
 
     def run(self) -> None:
         mod = self.prog.module(MOD)
+        self.borrow("C17", ("U1",), "E9")
         self.e1(mod)
         self.e2(mod)
         self.e3(mod)
